@@ -123,6 +123,9 @@ def search(pid, unit, failure, tier='quick', seed=0):
     if unit == 'U-LABEL':
         from . import witness_alpha
         return witness_alpha.search_labels(deadline, rng)
+    if unit == 'U-LEXA':
+        from . import witness_lexa
+        return witness_lexa.search(deadline, rng)
     if unit in ('U-SYN',):
         from . import witness_alpha
         return witness_alpha.search_syntax(deadline, rng)
